@@ -404,5 +404,9 @@ def run(chk, ctx):
     c06.r3(chk, ctx, ctx.protocol(), ctx.mod("state_engine"))   # gate dominates every history update in notify
     from . import round3
     round3.start_resets_record(chk, ctx)
+    from . import c11, c20
+    c11.r1(chk, ctx)                         # what is recorded is what the caller handed in (input/output texts are JSON texts)
+    c06.r4(chk, ctx, ctx.protocol(), ctx.mod('state_engine'))   # a cancelled Task's late reply appends nothing after the terminal event
+    c20.r5(chk, ctx, ctx.mod('store'))       # a re-created history replaces the old list in every store kind
     chk.assume("state Types range over the J2119 schema's list (C18.R1 checks the engine has a handler for each)")
     chk.assume("a handler asl_state_X (and its delegate / nested callbacks) only runs with state_type == X (prefix dispatch)")
